@@ -224,7 +224,11 @@ type seqWant struct {
 func runExpectCell(r *hk.Run, o *expectOrigin, ec expectCell) {
 	c := req.C().SetTimeout(20 * time.Second).EnableForceHTTP1()
 	c.SetLogger(nil)
-	c.GetTransport().SetExpectContinueTimeout(250 * time.Millisecond)
+	if ec.Mode == "late" {
+		c.GetTransport().SetExpectContinueTimeout(250 * time.Millisecond)
+	} else {
+		c.GetTransport().SetExpectContinueTimeout(5 * time.Second) // the scripted origin answers at once; never let the timer decide on a loaded machine
+	}
 	defer c.GetTransport().CloseIdleConnections()
 	for len(o.C) > 0 {
 		<-o.C
@@ -286,6 +290,17 @@ func runExpectCell(r *hk.Run, o *expectOrigin, ec expectCell) {
 		}
 	}
 judged:
+	// a first request that the transport legitimately re-sent on a fresh connection (the peer closed
+	// the first one) shows up twice: keep the last occurrence
+	for len(got) > 1 && got[1].Target == got[0].Target && got[1].ConnSeq != got[0].ConnSeq {
+		r.Count("seq.first-request-resent")
+		got = got[1:]
+		select {
+		case x := <-o.C:
+			got = append(got, x)
+		case <-time.After(3 * time.Second):
+		}
+	}
 	for i, g := range got {
 		w := wants[i]
 		if g.Err != "" {
